@@ -352,7 +352,7 @@ namespace adept {
 	    Index n = j_end_plus_1 - j_start;
 	    Index index_start = i*left_offset + j_start;
 	    Index index_stride = 1;
-	    active_stack()->push_derivative_dependence(right_index + j_start, 
+	    active_stack()->push_derivative_dependence(right_index + j_start*right.offset(0), 
 						       left_ptr+index_start,
 						       n, right.offset(0), index_stride);
 	    active_stack()->push_lhs(ans_index + i*ans.offset(0));
@@ -367,7 +367,7 @@ namespace adept {
 	    Index n = j_end_plus_1 - j_start;
 	    Index index_start = i + j_start*left_offset;
 	    Index index_stride = left_offset;
-	    active_stack()->push_derivative_dependence(right_index + j_start, 
+	    active_stack()->push_derivative_dependence(right_index + j_start*right.offset(0), 
 						       left_ptr+index_start,
 						       n, right.offset(0), index_stride);
 	    active_stack()->push_lhs(ans_index + i*ans.offset(0));
